@@ -142,6 +142,7 @@ def generate(rng, tier):
         out.append(("stale", gen_stale(rng)))
     for i in range(n // 8):
         out.append(("global", gen_global(rng, rng.choice([0, 1, 3, 8, 20, 40]))))
+    out.append(("nested", ["gnested"]))
     return out
 
 
